@@ -5,6 +5,8 @@ import Mathlib.Analysis.Matrix.Spectrum
 import Mathlib.Order.Interval.Finset.Fin
 import Mathlib.Tactic.Module
 import Mathlib.Tactic.Linarith
+import Mathlib.Tactic.FinCases
+import Mathlib.Tactic.Ring
 import PyPhysim.Proofs.C09Noise
 
 /-!
@@ -284,6 +286,116 @@ theorem least_singular_eq_noise (pe nv : ℝ) (hpe : 0 ≤ pe) (hnv : 0 ≤ nv) 
   simp only [Finset.card_univ, Fintype.card_fin] at h2
   have h3 : (Finset.univ.filter (fun i => ¬ S i = nv)).card = (Finset.univ.filter (fun i => S i ≠ nv)).card := rfl
   omega
+
+/-! ### model-level statements (`Mat ℂ`, `covExtInt`, `reductionMatrix`) -/
+
+theorem toM_ofReal_scale {m k : Nat} (nv : ℝ) (P : Mat ℂ m k) :
+    toM (fun i j => Cx.ofReal nv * P i j : Mat ℂ m k) = (nv : ℂ) • toM P := by
+  ext i j; simp [Cx.ofReal]
+
+theorem toM_zero {m k : Nat} : toM (fun (_ : Fin m) (_ : Fin k) => (0 : ℂ)) = 0 := rfl
+
+theorem rank_le_antennas (E : Mat ℂ N r) : (toM E).rank ≤ N := by
+  have := rank_le_card_height (toM E); simpa using this
+
+/-- `n ≤ N − rank E` orthonormal reduction vectors exist inside the noise eigenspace -/
+theorem exists_reduction_in_noise_space (pe nv : ℝ) (E : Mat ℂ N r) (hn : n ≤ N - (toM E).rank) :
+    ∃ P : Mat ℂ N n, matMul (cT P) P = eye ∧ matMul (cT E) P = (fun _ _ => 0) ∧
+      matMul (covExtInt pe nv E) P = fun i j => Cx.ofReal nv * P i j := by
+  have hle := rank_le_antennas E
+  obtain ⟨P', h1, h2⟩ := exists_orthonormal_ker (n := n) (toM E) (by omega)
+  refine ⟨fun i j => P' i j, ?_, ?_, ?_⟩
+  · apply toM_inj
+    rw [toM_matMul, toM_cT, toM_eye]; exact h1
+  · apply toM_inj
+    rw [toM_matMul, toM_cT, toM_zero]; exact h2
+  · apply toM_inj
+    rw [toM_matMul, toM_covExtInt, toM_ofReal_scale, Matrix.add_mul, Matrix.smul_mul, Matrix.smul_mul, Matrix.one_mul,
+      Matrix.mul_assoc]
+    have : (toM E)ᴴ * toM (fun i j => P' i j : Mat ℂ N n) = 0 := h2
+    rw [this, Matrix.mul_zero, smul_zero, zero_add]
+
+/-- for ANY matrix `P` inside the noise eigenspace (`Re P = σ² P`) and any `M`, the filter
+    `W = M Pᴴ` sees the noise only: `W Re Wᴴ = σ² W Wᴴ` -/
+theorem filter_cov_noise_only {s : Nat} (pe nv : ℝ) (E : Mat ℂ N r) (P : Mat ℂ N n) (M : Mat ℂ s n)
+    (hP : matMul (covExtInt pe nv E) P = fun i j => Cx.ofReal nv * P i j) :
+    matMul (matMul M (cT P)) (matMul (covExtInt pe nv E) (cT (matMul M (cT P)))) =
+      fun i j => Cx.ofReal nv * matMul (matMul M (cT P)) (cT (matMul M (cT P))) i j := by
+  have hP' := congrArg toM hP
+  rw [toM_matMul, toM_ofReal_scale] at hP'
+  apply toM_inj
+  rw [toM_ofReal_scale]
+  simp only [toM_matMul, toM_cT, conjTranspose_mul, conjTranspose_conjTranspose]
+  rw [← Matrix.mul_assoc (toM (covExtInt pe nv E)), hP', Matrix.smul_mul, Matrix.mul_smul]
+
+/-- a filter `W = M Pᴴ` built on a matrix orthogonal to the interference annihilates it -/
+theorem filter_kills_ext {s : Nat} (E : Mat ℂ N r) (P : Mat ℂ N n) (M : Mat ℂ s n)
+    (h : matMul (cT E) P = fun _ _ => 0) : matMul (matMul M (cT P)) E = fun _ _ => 0 := by
+  have h' := congrArg toM h
+  rw [toM_matMul, toM_cT, toM_zero] at h'
+  have hPE : (toM P)ᴴ * toM E = 0 := by
+    have := congrArg conjTranspose h'
+    simpa [conjTranspose_mul] using this
+  apply toM_inj
+  rw [toM_matMul, toM_matMul, toM_cT, toM_zero, Matrix.mul_assoc, hPE, Matrix.mul_zero]
+
+/-- the rank-counting step at the model level: the hypothesis `hS` of
+    `leastCols_noise_eigenspace` follows from the SVD contract with sorted non-negative singular
+    values and `n ≤ N − rank E` -/
+theorem least_singular_eq_noise_model (pe nv : ℝ) (hpe : 0 ≤ pe) (hnv : 0 ≤ nv) (E : Mat ℂ N r)
+    (U VH : Mat ℂ N N) (S : Fin N → ℝ) (hn : n ≤ N)
+    (hsvd : covExtInt pe nv E = matMul (matMul U (diagM (fun i => Cx.ofReal (S i)))) VH)
+    (hU : matMul (cT U) U = eye) (hV : matMul VH (cT VH) = eye)
+    (hS0 : ∀ i, 0 ≤ S i) (hsort : ∀ i j : Fin N, i ≤ j → S j ≤ S i)
+    (hrank : n ≤ N - (toM E).rank) (j : Fin n) : S (revIdx hn j) = nv := by
+  have hle := rank_le_antennas E
+  have hsvd' : (pe : ℂ) • (toM E * (toM E)ᴴ) + (nv : ℂ) • (1 : Matrix (Fin N) (Fin N) ℂ)
+      = toM U * diagonal (fun i => ((S i : ℝ) : ℂ)) * toM VH := by
+    rw [← toM_covExtInt, hsvd]; simp only [toM_matMul, toM_diagM]; rfl
+  have hU' : (toM U)ᴴ * toM U = 1 := by
+    have := congrArg toM hU; simpa only [toM_matMul, toM_cT, toM_eye] using this
+  have hV' : toM VH * (toM VH)ᴴ = 1 := by
+    have := congrArg toM hV; simpa only [toM_matMul, toM_cT, toM_eye] using this
+  exact least_singular_eq_noise pe nv hpe hnv (toM E) (toM U) (toM VH) S hn hsvd' hU' hV' hS0 hsort (by omega) j
+
+/-! ### a concrete instance: `N = 3` antennas, one interferer, `n = 2` streams kept -/
+namespace Ex3
+/-- `E = (2i, 0, 0)ᵀ` -/
+noncomputable def E : Mat ℂ 3 1 := fun i _ => if i.val = 0 then ⟨0, 2⟩ else 0
+/-- singular values of `Re = diag(4·pe + σ², σ², σ²)` -/
+def S (pe nv : ℝ) : Fin 3 → ℝ := fun i => if i.val = 0 then 4 * pe + nv else nv
+
+theorem rank_le_one : (toM E).rank ≤ 1 := rank_le_width (toM E)
+
+theorem two_streams : 2 ≤ 3 - (toM E).rank := by have := rank_le_one; omega
+
+theorem svd (pe nv : ℝ) :
+    covExtInt pe nv E = matMul (matMul (eye : Mat ℂ 3 3) (diagM (fun i => Cx.ofReal (S pe nv i)))) eye := by
+  rw [matMul_eye, eye_matMul]
+  funext i j
+  simp only [covExtInt, matMul_apply, cT, Cx.conj, Cx.ofReal, eye, diagM, E, S]
+  fin_cases i <;> fin_cases j <;> (simp [Complex.ext_iff]; try ring)
+
+theorem unitary : matMul (cT (eye : Mat ℂ 3 3)) eye = eye ∧ matMul (eye : Mat ℂ 3 3) (cT eye) = eye := by
+  have h : cT (eye : Mat ℂ 3 3) = eye := by
+    funext i j
+    simp only [cT, eye, Cx.conj]
+    by_cases h : i = j
+    · subst h; simp
+    · have : ¬ j = i := fun e => h e.symm
+      simp [h, this]
+  rw [h, matMul_eye]
+  exact ⟨rfl, rfl⟩
+
+theorem S_nonneg (pe nv : ℝ) (hpe : 0 ≤ pe) (hnv : 0 ≤ nv) (i : Fin 3) : 0 ≤ S pe nv i := by
+  unfold S; split <;> nlinarith
+
+theorem S_sorted (pe nv : ℝ) (hpe : 0 ≤ pe) (i j : Fin 3) (hij : i ≤ j) : S pe nv j ≤ S pe nv i := by
+  unfold S
+  have : i.val ≤ j.val := hij
+  by_cases hi : i.val = 0 <;> by_cases hj : j.val = 0 <;> simp [hi, hj] <;> first | linarith | omega
+
+end Ex3
 
 end rank
 end Pf
